@@ -140,6 +140,18 @@ impl<'a> DsvCursor<'a> {
         let rank_at = self.index.newlines_rank1(self.position);
         rank_at > rank_before
     }
+
+    /// Is the cursor at the end of a text whose last byte is a field delimiter
+    /// outside quotes? Then the last row has one more field, the empty one: a
+    /// text need not end with a record separator (`a,` has the same fields as
+    /// `a,\n`).
+    fn at_end_after_delimiter(&self) -> bool {
+        let len = self.text.len();
+        len > 0
+            && self.position == len
+            && self.index.markers_rank1(len) > self.index.markers_rank1(len - 1)
+            && self.index.newlines_rank1(len) == self.index.newlines_rank1(len - 1)
+    }
 }
 
 /// A single row in DSV data.
@@ -178,7 +190,7 @@ impl<'a> DsvRow<'a> {
             ..self.cursor
         };
 
-        for _ in 0..column {
+        for i in 0..column {
             // Check if we hit a newline before reaching the column
             let field = cursor.current_field();
             if field.is_empty() && cursor.at_end() {
@@ -186,6 +198,11 @@ impl<'a> DsvRow<'a> {
             }
 
             if !cursor.next_field() {
+                // A trailing delimiter at the end of the text is followed by
+                // exactly one more (empty) column.
+                if i + 1 == column && cursor.at_end_after_delimiter() {
+                    return Some(&cursor.text[cursor.text.len()..]);
+                }
                 return None;
             }
 
@@ -280,6 +297,10 @@ impl<'a> Iterator for DsvFields<'a> {
         // Move to next field
         if !self.cursor.next_field() {
             self.finished = true;
+            // The text ends right after a delimiter: the row's last field is empty.
+            if self.cursor.at_end_after_delimiter() {
+                return Some(&self.cursor.text[self.cursor.text.len()..]);
+            }
             return None;
         }
 
